@@ -12,12 +12,29 @@ use tracing::{debug, error, trace};
 
 /// Spawn a task that accepts unidirectional broadcast streams, then
 /// spawns another task for each incoming stream to handle.
+///
+/// Frames are filtered against a fixed cluster id; see
+/// [`spawn_unipayload_handler_with`] for a node whose cluster id can change.
 pub fn spawn_unipayload_handler(
     tripwire: &Tripwire,
     conn: &quinn::Connection,
     cluster_id: ClusterId,
     tx_changes: CorroSender<(ChangeV1, ChangeSource)>,
 ) {
+    spawn_unipayload_handler_with(tripwire, conn, move || cluster_id, tx_changes)
+}
+
+/// Same, but the cluster id a frame must declare is looked up when the frame
+/// arrives: a connection outlives `cluster set-id`, and frames of the cluster
+/// the node has left must not be accepted on it anymore.
+pub fn spawn_unipayload_handler_with<F>(
+    tripwire: &Tripwire,
+    conn: &quinn::Connection,
+    current_cluster_id: F,
+    tx_changes: CorroSender<(ChangeV1, ChangeSource)>,
+) where
+    F: Fn() -> ClusterId + Clone + Send + Sync + 'static,
+{
     tokio::spawn({
         let conn = conn.clone();
         let mut tripwire = tripwire.clone();
@@ -46,6 +63,7 @@ pub fn spawn_unipayload_handler(
 
                 tokio::spawn({
                     let tx_changes = tx_changes.clone();
+                    let current_cluster_id = current_cluster_id.clone();
                     async move {
                         let mut framed = FramedRead::new(
                             rx,
@@ -72,6 +90,7 @@ pub fn spawn_unipayload_handler(
                                                         )),
                                                     cluster_id: payload_cluster_id,
                                                 } => {
+                                                    let cluster_id = current_cluster_id();
                                                     #[cfg(feature = "verif")]
                                                     klukai_types::verif::uni_seen_push(
                                                         payload_cluster_id.0,
